@@ -706,6 +706,11 @@ func (r *multiCIDRRangeAllocator) AllocateOrOccupyCIDR(logger klog.Logger, node 
 	}
 
 	if len(node.Spec.PodCIDRs) > 0 {
+		// The node may have been deleted, and its CIDRs released by the delete handler, while this
+		// work item was waiting for the lock: do not occupy them again.
+		if _, err := r.nodeLister.Get(node.Name); apierrors.IsNotFound(err) {
+			return nil
+		}
 		return r.occupyCIDRs(logger, node)
 	}
 
